@@ -128,12 +128,15 @@ def mutants(args):
         try:
             f = os.path.join(d, e["file"])
             s = open(f).read()
-            if s.count(e["old"]) < 1:
+            edits = e.get("edits") or [{"old": e["old"], "new": e["new"]}]
+            if any(s.count(x["old"]) < 1 for x in edits):
                 rows.append({"id": e["id"], "result": "STALE", "detail": "old text not found in %s" % e["file"]})
                 print("%-45s STALE (text not found)" % e["id"])
                 rc = 1
                 continue
-            open(f, "w").write(s.replace(e["old"], e["new"], 1))
+            for x in edits:
+                s = s.replace(x["old"], x["new"], 1)
+            open(f, "w").write(s)
             t0 = time.time()
             code, classes, tail = run_check(e["property"], d)
             if e["kind"] == "mutant":
